@@ -89,12 +89,18 @@ var profiles = map[string]profile{
 	"c01": {
 		gen: func(r *rand.Rand, k int) GenCfg {
 			g := baseGen(r, k)
+			if k%8 == 7 { // more than 100 frames, one validator almost silent: its old events can arrive very late
+				return GenCfg{Weights: [][]int{{3, 1}, {3, 3, 1}, {2, 2, 2, 1}}[(k/8)%3], Epochs: 1, EpochEvents: 112 + 100*((k/8)%3), MaxParents: 1 + len([][]int{{3, 1}, {3, 3, 1}, {2, 2, 2, 1}}[(k/8)%3]), Sleeper: true}
+			}
 			if k%2 == 0 {
 				g = multiEpoch(r, g)
 			}
 			return g
 		},
 		plays: func(r *rand.Rand, k int) []PlayOpts {
+			if k%8 == 7 {
+				return []PlayOpts{{Order: "rarelast"}, {Order: "late"}}
+			}
 			return []PlayOpts{{Order: "topo"}, {Order: "lastval"}, {Order: "late"}}
 		},
 	},
